@@ -417,9 +417,55 @@ func runVer1(c *core.Ctx) {
 				}
 			}
 		}
+		if !okEq {
+			// the comparison made inside a phase helper whose verdict Verify tests (`ok, err := chk.checkID();
+			// if !ok { return false, nil }`): the helper answers true only on paths that took the
+			// comparison's true edge
+			for _, g := range an.Guards(ver, rb) {
+				g = an.NormCond(g)
+				ex, isEx := g.V.(*ssa.Extract)
+				if !g.True || !isEx || ex.Index != 0 {
+					continue
+				}
+				hc, isCall := ex.Tuple.(*ssa.Call)
+				if !isCall {
+					continue
+				}
+				h := an.StaticCallee(&hc.Call)
+				if !an.PrivateHelper(h) {
+					continue
+				}
+				tps, okp := an.ResultPathsDeepVia(h, 0, true, hc)
+				if !okp || len(tps) == 0 {
+					continue
+				}
+				all := true
+				for _, tp := range tps {
+					hit := false
+					for _, cd := range tp.Conds {
+						if !cd.True {
+							continue
+						}
+						vp := cd.Path(cd.V)
+						if strings.HasPrefix(vp, "call:bytes.Equal(") {
+							seen = append(seen, vp)
+						}
+						if vp == "call:bytes.Equal("+wantEq[0]+","+wantEq[1]+")" || vp == "call:bytes.Equal("+wantEq[1]+","+wantEq[0]+")" {
+							hit = true
+						}
+					}
+					if !hit {
+						all = false
+					}
+				}
+				if all {
+					okEq = true
+				}
+			}
+		}
 		c.Check(okEq && serPath != "", nil, fname(c, ver), "return#may-be-true/id-check", P.Pos(r.Pos()),
 			"dominated by bytes.Equal(hex(ID), sha256(Serialize(ev))) over the whole values",
-			fmt.Sprintf("the possibly-true result is not dominated by the full comparison hex(ID) == sha256(Serialize(ev)); comparisons found: %v", seen))
+			fmt.Sprintf("the possibly-true result is not dominated by the full comparison hex(ID) == sha256(Serialize(ev)) (bytes.Equal of %s and %s); comparisons found: %v", wantEq[0], wantEq[1], seen))
 	}
 	c.Check(nTrue >= 1, nil, fname(c, ver), "returns", P.Pos(ver.Pos()), fmt.Sprintf("%d return(s) can be true, each one checked", nTrue), "no return of Verify can be true")
 }
